@@ -2320,10 +2320,13 @@ avx_rule_avgsb_slow (OrcCompiler *p, void *user, OrcInstruction *insn)
     orc_avx_emit_pxor (p, src1, tmp, src1);
     orc_avx_emit_pxor (p, dest, tmp, dest);
   } else {
-    orc_avx_sse_emit_pxor (p, src1, tmp, src1);
+    /* src1 may be a loop invariant held in a full YMM register: flip and
+     * restore it with the 256-bit form, a VEX.128 write would zero its
+     * upper half for the 256-bit iterations that follow */
+    orc_avx_emit_pxor (p, src1, tmp, src1);
     orc_avx_sse_emit_pxor (p, src0, tmp, dest);
     orc_avx_sse_emit_pavgb (p, dest, src1, dest);
-    orc_avx_sse_emit_pxor (p, src1, tmp, src1);
+    orc_avx_emit_pxor (p, src1, tmp, src1);
     orc_avx_sse_emit_pxor (p, dest, tmp, dest);
   }
 }
@@ -2345,10 +2348,13 @@ avx_rule_avgsw_slow (OrcCompiler *p, void *user, OrcInstruction *insn)
     orc_avx_emit_pxor (p, src1, tmp, src1);
     orc_avx_emit_pxor (p, dest, tmp, dest);
   } else {
-    orc_avx_sse_emit_pxor (p, src1, tmp, src1);
+    /* src1 may be a loop invariant held in a full YMM register: flip and
+     * restore it with the 256-bit form, a VEX.128 write would zero its
+     * upper half for the 256-bit iterations that follow */
+    orc_avx_emit_pxor (p, src1, tmp, src1);
     orc_avx_sse_emit_pxor (p, src0, tmp, dest);
     orc_avx_sse_emit_pavgw (p, dest, src1, dest);
-    orc_avx_sse_emit_pxor (p, src1, tmp, src1);
+    orc_avx_emit_pxor (p, src1, tmp, src1);
     orc_avx_sse_emit_pxor (p, dest, tmp, dest);
   }
 }
